@@ -21,7 +21,7 @@ ASSUMPTIONS = [
     "program overwrites are decided by C13 (no programs are generated here)",
     "runs with float overflow above 1e100 are discarded",
 ]
-BUDGET = {"quick": 3000, "thorough": 24000}  # thorough = 8x quick: a depth that was run to completion, quiet, at seed 1 (deterministic given the seed)
+BUDGET = {"quick": 3000, "thorough": 12000}  # thorough = 4x quick: a depth that was run to completion, quiet, at seed 1 (deterministic given the seed)
 TIME_CAP = {"quick": 75, "thorough": 1500}
 PROFILE = {"p_function": 0.6, "p_limits": 0.5, "p_yfactor": 0.5, "p_output_pars": 0.7, "p_time_varying": 0.6, "p_interaction": 0.6, "max_steps": 16, "extreme": 0.05, "p_timed": 0.3, "p_junction": 0.3, "allow_negative_functions": True, "comp_yfactor": 0.3, "p_deriv": 0.15, "p_agg_transition": 0.15}
 
